@@ -116,6 +116,15 @@ fn render_group(
     let mut sub_pixmap = tiny_skia::Pixmap::new(ibbox.width(), ibbox.height())
         .log_none(|| log::warn!("Failed to allocate a group layer for: {:?}.", ibbox))?;
 
+    // The layer has its own coordinate system with the origin at the `ibbox` top-left corner,
+    // so the bounds used to limit nested layers have to be moved into it as well.
+    let ctx = &Context {
+        max_bbox: ctx
+            .max_bbox
+            .translate(-ibbox.x(), -ibbox.y())
+            .unwrap_or(ctx.max_bbox),
+    };
+
     render_nodes(group, ctx, transform, &mut sub_pixmap.as_mut());
 
     if !group.filters().is_empty() {
